@@ -710,17 +710,25 @@ func getTextContentRecursive(n *html.Node, result *strings.Builder) {
 	}
 }
 
-// getDirectTextContent gets text content from a node, excluding nested block elements.
+// getDirectTextContent gets text content from a node, excluding nested lists
+// (which the caller traverses as list items of their own).
 func getDirectTextContent(n *html.Node) string {
 	var result strings.Builder
 	for c := n.FirstChild; c != nil; c = c.NextSibling {
 		if c.Type == html.TextNode {
 			result.WriteString(c.Data)
 		} else if c.Type == html.ElementNode {
-			// Include inline elements, skip block elements
 			switch c.Data {
-			case "ul", "ol", "div", "p", "table", "blockquote":
-				// Skip these - they're block elements
+			case "ul", "ol":
+				// Skip these - nested lists are handled by the caller
+			case "div", "p", "table", "blockquote":
+				// Block children belong to the item; keep their text apart
+				// from the text around them
+				if text := getTextContent(c); text != "" {
+					result.WriteString(" ")
+					result.WriteString(text)
+					result.WriteString(" ")
+				}
 			default:
 				result.WriteString(getTextContent(c))
 			}
